@@ -64,6 +64,7 @@ type FS struct {
 	FailWriteAt int
 	ShortWrite  bool // the failing write stores a prefix of one byte less than asked
 	writes      int
+	faultArmedAt int
 	tmpN        int
 	// listing order of directories: 0 = sorted (what the OS gives for os.ReadDir), 1 = reverse creation order
 	WalkReverse bool
@@ -854,3 +855,15 @@ func (f *FS) OpenCount() int {
 	}
 	return n
 }
+
+// ArmWriteFault makes the k-th write call from now (0-based, on any file) fail; symbolic engine only.
+func (f *FS) ArmWriteFault(k int) {
+	f.FailWriteAt = f.writes + k
+	f.faultArmedAt = f.writes
+}
+
+// FaultHit reports whether the armed write failure has been delivered.
+func (f *FS) FaultHit() bool { return f.FailWriteAt >= 0 && f.writes > f.FailWriteAt }
+
+// DisarmWriteFault switches fault injection off again.
+func (f *FS) DisarmWriteFault() { f.FailWriteAt = -1 }
